@@ -100,6 +100,8 @@ def run(F, R, tier):
         for a in m["arms"]:
             p = a["pat"]
             k = p["e"]["lit"]["v"] if p.get("k") == "PExpr" and p["e"].get("k") == "PELit" else None
+            if k is None and p.get("k") == "PExpr" and p["e"].get("k") == "PEPath" and isinstance(CONST_VALUES.get(p["e"]["res"].get("path")), int):
+                k = CONST_VALUES[p["e"]["res"]["path"]]       # a length constant used as the arm's pattern
             cs = {last_seg(norm(c.get("callee", ""))): c for c in exprs(a["body"], "Call")}
             if k is not None:
                 seen.add(k)
